@@ -49,17 +49,40 @@ def parseOp (tab : DistTab) (cur : Coll) : List String → Option (Option Op)
       let a ← parseInt s; let b ← parseInt e; some (some (.filterTime a b))
   | _ => none
 
-/-- run the sections one by one (mirrors `Track.run`: an operation that raises leaves the track) -/
-def runHist (tab : DistTab) (cur : Coll) : List (List String) → Option (List String)
+/-- `list.sort(key=start, reverse=True)`: stable, newest first -/
+def sortDesc (l : List Shape) : List Shape := l.mergeSort fun a b => decide (a.startD ≥ b.startD)
+
+/-- what the *caller* does with the list object it handed to the constructor (`arg.*`) or with a sibling Track built
+    from that same list (`sib.*`).  The Track constructor stores a sorted **copy** (`sorted(...)`), so none of these is
+    an operation on the track: `none` = not such a section, `some arg'` = the caller's list afterwards. -/
+def callerStep (arg : List Shape) : List String → Option (Option (List Shape))
+  | "arg.append" :: ts => (parseShapes ts).map fun l => some (arg ++ l)
+  | ["arg.reverse"] => some (some arg.reverse)
+  | ["arg.sortdesc"] => some (some (sortDesc arg))
+  | ["arg.pop"] => some (some arg.dropLast)
+  | ["arg.clear"] => some (some [])
+  | "sib.append" :: ts => (parseShapes ts).map fun _ => some arg
+  | ["arg"] => some (some arg)
+  | _ => some none
+
+/-- run the sections one by one (mirrors `Track.run`: an operation that raises leaves the track); `arg` is the list
+    object the first track was constructed from, as the caller sees it -/
+def runHist (tab : DistTab) (cur : Coll) (arg : List Shape) : List (List String) → Option (List String)
   | [] => some []
   | sec :: rest =>
-    match parseOp tab cur sec with
+    match callerStep arg sec with
     | none => none
-    | some none => (runHist tab cur rest).map ("no-dist" :: ·)
-    | some (some op) =>
-      match Track.step cur op with
-      | .ok c' => (runHist tab c' rest).map (showColl c' :: ·)
-      | .error e => (runHist tab cur rest).map (e :: ·)
+    | some (some arg') =>
+      let out := if sec == ["arg"] then "A " ++ showShapes arg' else showColl cur
+      (runHist tab cur arg' rest).map (out :: ·)
+    | some none =>
+      match parseOp tab cur sec with
+      | none => none
+      | some none => (runHist tab cur arg rest).map ("no-dist" :: ·)
+      | some (some op) =>
+        match Track.step cur op with
+        | .ok c' => (runHist tab c' arg rest).map (showColl c' :: ·)
+        | .error e => (runHist tab cur arg rest).map (e :: ·)
 
 def handle (op : String) (args : List String) : String :=
   match splitAt "|" args with
@@ -100,7 +123,7 @@ def handle (op : String) (args : List String) : String :=
             match parseDist d with
             | none => "bad-op"
             | some tab =>
-              match runHist tab c secs.dropLast with
+              match runHist tab c l secs.dropLast with
               | some outs => " ; ".intercalate (showColl c :: outs)
               | none => "bad-op"
         | _, _ => "bad-op"
